@@ -238,6 +238,18 @@ def run(facts, rep, tier):
                 continue
             ok = summary(pu) == summary(pd)
             rep.oblige(ok, ("U", key, f))
+            if ok:
+                # ... and under the same conditions on what the row held before (a pairing guard that looks at a different
+                # generation of the row's state on one path makes the two option sets diverge on some history)
+                cu, cd_ = _row_conditions(ru, f), _row_conditions(rd, f)
+                okc = cu == cd_
+                rep.oblige(okc, ("U-cond", key, f))
+                if not okc:
+                    only_u = sorted(cu - cd_)[:3]
+                    only_d = sorted(cd_ - cu)[:3]
+                    rep.add(Finding("R19.3", "%s stored under different row conditions with/without -U: %s" % (f, key),
+                                    "context '%s': the store to %s depends on the row's previous contents differently: only with -U %s; only "
+                                    "without -U %s - some history of valid frames gives different tables" % (key, f, only_u, only_d), None))
             if n3 % 97 == 0:
                 rep.sample({"rule": "R19.3", "context": key, "field": f, "with_U": repr(pu)[:120], "without_U": repr(pd)[:120]})
             if not ok:
@@ -245,6 +257,28 @@ def run(facts, rep, tier):
                                 "context '%s': with -U %s := %r, without -U %s := %r" % (key, f, vu, f, vd), None))
     rep.instances("R19.3", n3, floor=300, what="(context pair, field) comparisons")
     rep.assumptions += ["R19.3 compares valid carried values (the Some payloads); when a frame carries no valid value the default path keeps, the -U path blanks (allowed by C11)"]
+
+
+def _row_conditions(r, f):
+    """what the last store to field f depends on in the row's previous contents: path-condition atoms over pre-state terms
+    and control dependences on pre-state fields"""
+    from ..absint.domain import show_term
+    last = None
+    for path, v, pc, ctl in r.stores:
+        if path and path[0][1] == f:
+            last = (pc, ctl)
+    if last is None:
+        return frozenset()
+    pc, ctl = last
+    out = set()
+    for t, tr in pc:
+        s_ = show_term(t)
+        if "pre(" in s_ and "ctl(" not in s_:        # (terms that merely list dependences are covered by the `depends on` entries)
+            out.add("%s is %s" % (s_[:120], tr))
+    for d in ctl or ():
+        if isinstance(d, tuple) and d and d[0] == "pre":
+            out.add("depends on %s" % (d[1],))
+    return frozenset(out)
 
 
 def _struct_of(facts, ctor):
